@@ -728,8 +728,17 @@ func NestedTwinOp(r *core.Rng, s *Schema, typename string) *Def {
 			if r.Chance(0.5) {
 				extra = "__typename"
 			}
-			text := fmt.Sprintf("query ZTwin {\n  # @genqlient(typename: %q)\n  t1: %s {\n    %s {\n      %s\n    }\n  }\n  # @genqlient(typename: %q)\n  t2: %s {\n    %s {\n      %s\n      %s\n    }\n  }\n}\n",
-				typename, f.Name, g.Name, leaf.Name, typename, f.Name, g.Name, leaf.Name, extra)
+			// the larger selection second, or first (then the later one is a strict prefix)
+			a1, a2 := "t1", "t2"
+			if r.Chance(0.5) {
+				a1, a2 = "t2", "t1"
+			}
+			text := fmt.Sprintf("query ZTwin {\n  # @genqlient(typename: %q)\n  %s: %s {\n    %s {\n      %s\n    }\n  }\n  # @genqlient(typename: %q)\n  %s: %s {\n    %s {\n      %s\n      %s\n    }\n  }\n}\n",
+				typename, a1, f.Name, g.Name, leaf.Name, typename, a2, f.Name, g.Name, leaf.Name, extra)
+			if a1 == "t2" {
+				text = fmt.Sprintf("query ZTwin {\n  # @genqlient(typename: %q)\n  t1: %s {\n    %s {\n      %s\n      %s\n    }\n  }\n  # @genqlient(typename: %q)\n  t2: %s {\n    %s {\n      %s\n    }\n  }\n}\n",
+					typename, f.Name, g.Name, leaf.Name, extra, typename, f.Name, g.Name, leaf.Name)
+			}
 			return &Def{Kind: "query", Name: "ZTwin", Text: text}
 		}
 	}
